@@ -78,6 +78,13 @@ from .pool import pmap
 PID = "X03"
 BASE0 = "/verif/.work"
 BASE1 = "/vfx/base2"
+# the symbolic world of get_component_dirs(): "/S" = the harness's sandbox directory, "/DJC" = the directory of
+# the django_components package (an installed app with a components/ directory); see harness()
+SBASE, SNOBASE = "/S/base", "/S/nobase"
+FS = ["/S/d1", "/S/d2", "/S/base/components", "/S/app1/components", "/S/app1/ui", "/DJC/components"]
+APPS = ["/DJC", "/S/app1"]
+APPNAME = "vfx03app"
+DIRS_OUTCOME = "returned"
 
 # effective setting (named by the current key) -> attribute of app_settings
 ACC = {
@@ -109,7 +116,8 @@ GROUPS: Dict[str, Dict[str, Any]] = {
     "downstream": {"keys": ["context_behavior", "template_cache_size", "multiline_tags", "dynamic_component_name"],
                    "extra": ["autodiscover", "tag_formatter"], "reg": ["context_behavior"], "bases": [BASE0]},
     "paths": {"keys": ["dirs", "app_dirs", "libraries", "cache"],
-              "extra": ["static_files_allowed", "template_cache_size"], "reg": [], "bases": [BASE0, BASE1]},
+              "extra": ["static_files_allowed", "template_cache_size"], "reg": [], "bases": [SBASE, SNOBASE],
+              "comp": True},
     "misc": {"keys": ["debug_highlight_components", "debug_highlight_slots", "tag_formatter"],
              "extra": ["context_behavior", "cache"], "reg": ["tag_formatter"], "bases": [BASE0]},
 }
@@ -125,18 +133,35 @@ def V(t: str, b: bool = False, i: int = 0, s: str = "", l: Optional[List[str]] =
 ABSENT = V("absent")
 
 
+_ROOTS: Dict[str, str] = {}     # symbolic root -> real directory (filled by harness())
+
+
+def real(p: str) -> str:
+    for sym, r in _ROOTS.items():
+        if p == sym or p.startswith(sym + "/"):
+            return r + p[len(sym):]
+    return p
+
+
+def sym(p: str) -> str:
+    for s_, r in _ROOTS.items():
+        if p == r or p.startswith(r + "/"):
+            return s_ + p[len(r):]
+    return p
+
+
 def _enc_item(x: Any) -> str:
     if isinstance(x, Path):
-        return "path:" + str(x)
+        return "path:" + sym(str(x))
     if isinstance(x, re.Pattern):
         for rid, rx in REGEXES.items():
             if rx is x:
                 return "re:" + rid
         return "re?:" + x.pattern
     if isinstance(x, (tuple, list)) and len(x) == 2:
-        return f"tuple:{x[0]}:{x[1]}"
+        return f"tuple:{x[0]}:{sym(str(x[1]))}"
     if isinstance(x, str):
-        return x
+        return sym(x)
     return "?:" + repr(x)
 
 
@@ -164,13 +189,13 @@ def enc_exc(e: BaseException) -> Dict[str, Any]:
 
 def _dec_item(s: str) -> Any:
     if s.startswith("path:"):
-        return Path(s[5:])
+        return Path(real(s[5:]))
     if s.startswith("re:"):
         return REGEXES[s[3:]]
     if s.startswith("tuple:"):
         _, pre, p = s.split(":", 2)
-        return (pre, p)
-    return s
+        return (pre, real(p))
+    return real(s)
 
 
 def dec(v: Dict[str, Any]) -> Any:
@@ -227,7 +252,7 @@ class Live:
         from django.conf import settings
         from django.test.utils import override_settings
         comp = build_components(conf["form"], conf["given"])
-        base: Any = conf["base"]
+        base: Any = real(conf["base"])
         if flavour % 2:
             base = Path(base)              # BASE_DIR as str or as Path: same directory
         kw: Dict[str, Any] = {"BASE_DIR": base}
@@ -253,6 +278,20 @@ def read(key: str) -> Dict[str, Any]:
         return enc(key, getattr(app_settings, ACC[key]))
     except Exception as e:  # noqa: BLE001
         return enc_exc(e)
+
+
+def compdirs(inc: bool) -> Dict[str, Any]:
+    """get_component_dirs(include_apps=inc) as a typed value: the directories in symbolic form."""
+    from django_components import get_component_dirs
+    try:
+        res = get_component_dirs(include_apps=inc)
+    except Exception as e:  # noqa: BLE001
+        return enc_exc(e)
+    return V("dirs", l=sorted(sym(str(p)) for p in res))
+
+
+def _same_result(x: Dict[str, Any], o: Dict[str, Any]) -> bool:
+    return x["t"] == o["t"] and x["s"] == o["s"] and sorted(x["l"]) == sorted(o["l"]) and len(set(o["l"])) == len(o["l"])
 
 
 def _forget(reg) -> None:
@@ -313,7 +352,7 @@ def harness() -> Dict[str, Any]:
     reg = ComponentRegistry(library=lib, settings=RegistrySettings(tag_formatter=ComponentFormatter("vfx03c")))
     reg.register("vfx03_inner", VfxInner)
     engines["django"].engine.template_libraries["vfx03lib"] = lib
-    w = workdir("x03lib")
+    w = workdir("x03lib").resolve()
     pkg = w / LIBPKG
     pkg.mkdir()
     (pkg / "__init__.py").write_text("")
@@ -322,6 +361,34 @@ def harness() -> Dict[str, Any]:
     sys.path.insert(0, str(w))
     _H.update(reg=reg, lib=lib, target=VfxTarget, inner=VfxInner)
     return _H
+
+
+def world() -> None:
+    """The world of get_component_dirs(): a sandbox with existing directories = FS, /S/file.txt a file,
+    /S/missing nothing; the generated app vfx03app (root /S/app1) is installed for the rest of the process."""
+    if _ROOTS:
+        return
+    import django_components as _djc
+    from django.test.utils import override_settings
+    w = workdir("x03world").resolve()
+    for d in FS:
+        if d.startswith("/S/") and not d.startswith("/S/app1"):
+            (w / d[3:]).mkdir(parents=True)
+    (w / "nobase").mkdir()
+    (w / "file.txt").write_text("not a directory")
+    app = w / "app1"
+    for sub in ("components", "ui"):
+        (app / sub).mkdir(parents=True)
+    (app / "__init__.py").write_text("")
+    (app / "apps.py").write_text(
+        f"from django.apps import AppConfig\n\n\nclass Cfg(AppConfig):\n    name = {APPNAME!r}\n")
+    import importlib.util
+    spec = importlib.util.spec_from_file_location(APPNAME, app / "__init__.py", submodule_search_locations=[str(app)])
+    mod = importlib.util.module_from_spec(spec)
+    sys.modules[APPNAME] = mod
+    spec.loader.exec_module(mod)
+    override_settings(INSTALLED_APPS=("django_components", APPNAME)).enable()     # until the process ends
+    _ROOTS.update({"/S": str(w), "/DJC": str(Path(_djc.__file__).resolve().parent)})
 
 
 def _fresh_registry_behavior() -> Dict[str, Any]:
@@ -507,7 +574,9 @@ def _group_cfg(path: Path, name: str, mode: str, rich: bool, all_reads: bool) ->
     reads = ALL_ACCS if all_reads else sorted({_new(k) for k in g["keys"]} | set(g["extra"]))
     consts = (f"CONSTANTS\n  GKeys = {_sset(g['keys'])}\n  ReadAccs = {_sset(reads if mode == 'mc' else [])}\n"
               f"  RegReads = {_sset(g['reg'] if mode == 'mc' else [])}\n  Base0 = {json.dumps(g['bases'][0])}\n"
-              f"  Bases = {_sset(g['bases'])}\n  Rich = {'TRUE' if rich else 'FALSE'}\n")
+              f"  Bases = {_sset(g['bases'])}\n  Rich = {'TRUE' if rich else 'FALSE'}\n"
+              f"  CompReads = {'TRUE' if g.get('comp') and mode == 'mc' else 'FALSE'}\n"
+              f"  FS = {_sset(FS)}\n  Apps = {_sset(APPS)}\n")
     if mode == "mc":
         path.write_text("SPECIFICATION MCSpec\nVIEW View\n" + consts +
                         "INVARIANT TypeOK\nINVARIANT Theorems\nPROPERTY ReadIsResolve\nPROPERTY LocalityProp\n"
@@ -547,7 +616,7 @@ def _exports_parallel(jobs: List[Tuple[str, Path]]) -> Dict[str, Tuple[List[Any]
 
 # ---------------------------------------------------------------- spec -> code: transitions
 def _key_of(devkey: str) -> str:
-    return f"{devkey}:{DEV_OUTCOME}"
+    return f"{devkey}:{DIRS_OUTCOME if devkey.startswith('dirs-') else DEV_OUTCOME}"
 
 
 def replay_transition(row: Dict[str, Any], flavour: int = 0) -> List[Dict[str, Any]]:
@@ -567,6 +636,8 @@ def replay_transition(row: Dict[str, Any], flavour: int = 0) -> List[Dict[str, A
         reg0 = ComponentRegistry(library=Library())
         reg_settings(reg0, "context_behavior")
         op = call["op"]
+        if row["afterdirs"]:
+            compdirs(True)
         if op == "read":
             o = read(call["k"])
             if o not in row["ret"]:
@@ -579,6 +650,13 @@ def replay_transition(row: Dict[str, Any], flavour: int = 0) -> List[Dict[str, A
             o = regread(call["k"], call["v"], call["w"])
             if o not in row["ret"]:
                 bad.append({"what": "regread " + call["k"], "expected": row["ret"], "observed": o, "key": None})
+        elif op == "compdirs":
+            compdirs(not call["v"]["b"])          # warm with the other flag
+            o = compdirs(call["v"]["b"])
+            if not any(_same_result(x, o) for x in row["ret"]):
+                k = _key_of(row["devkey"]) if row["devkey"] and any(_same_result(x, o) for x in row["devret"]) else None
+                bad.append({"what": f"get_component_dirs(include_apps={call['v']['b']})", "expected": row["ret"],
+                            "observed": o, "key": k})
         else:
             live.push(row["post"], flavour // 2)
             dev = {d["a"]: d for d in row["dev"]}
@@ -588,6 +666,12 @@ def replay_transition(row: Dict[str, Any], flavour: int = 0) -> List[Dict[str, A
                     d = dev.get(ent["a"])
                     k = _key_of(d["key"]) if d and o in d["adm"] else None
                     bad.append({"what": f"read {ent['a']} after {op}", "expected": ent["adm"], "observed": o, "key": k})
+            for ent in row["afterdirs"]:
+                o = compdirs(ent["inc"])
+                if not any(_same_result(x, o) for x in ent["adm"]):
+                    k = _key_of(row["devkey"]) if row["devkey"] and any(_same_result(x, o) for x in ent["devadm"]) else None
+                    bad.append({"what": f"get_component_dirs(include_apps={ent['inc']}) after {op}",
+                                "expected": ent["adm"], "observed": o, "key": k})
             for ent in row["afterreg"]:
                 o = reg_settings(reg0, ent["k"])
                 if o not in ent["adm"]:
@@ -624,7 +708,8 @@ def model_check_transitions(chk: Check, groups: List[str], rich: bool, all_reads
         results = pmap(_replay_transition_item, list(enumerate(rows)), workers=WORKERS, per_item_s=20.0, chunk=400)
         for i, (row, bads) in enumerate(zip(rows, results)):
             op = row["call"]["op"]
-            chk.count([g, row["call"], row["pre"]], nontrivial=bool(row["pre"]["given"]) or op not in ("read", "regread"))
+            chk.count([g, row["call"], row["pre"]],
+                      nontrivial=bool(row["pre"]["given"]) or op not in ("read", "regread", "compdirs"))
             if not isinstance(bads, list):
                 raise MachineryError(f"transition replay did not finish: {bads}")
             for b in bads:
@@ -764,9 +849,10 @@ def _rand_value(rnd: random.Random, k: str) -> Dict[str, Any]:
     if k == "tag_formatter":
         return V("str", s=rnd.choice(FORMATTERS))
     if k == "dirs":
-        pool = ["/vfx/a", "path:/vfx/a", "/vfx/b/c", "path:/vfx/d", "tuple:pre:/vfx/e"]
+        pool = ["/S/d1", "path:/S/d1", "/S/d2", "path:/S/d2", "tuple:pre:/S/d2", "/S/missing", "path:/S/missing/deep",
+                "/S/file.txt", "/S/base/components", "/vfx/a", "tuple:p:/vfx/e"] + (["rel/d"] if rnd.random() < 0.1 else [])
     elif k == "app_dirs":
-        pool = ["components", "vfx_comps", "x/y", "ui"]
+        pool = ["components", "ui", "nope", "x/y"]
     elif k == "libraries":
         pool = LIBPOOL
     else:
@@ -778,7 +864,8 @@ def record_history(rnd: random.Random, tid: int, length: int, startups: bool = T
     """One history on the real objects.  `conf` mirrors what was installed (generator state, needed to
     emit enabled actions only); nothing here predicts what a read returns."""
     keys = sorted(set(ACC) | {"reload_on_template_change", "forbidden_static_files"})
-    base0 = rnd.choice([BASE0, BASE1])
+    bases = [SBASE, SNOBASE]
+    base0 = rnd.choice(bases)
     conf = {"form": "none", "base": base0, "given": []}
     frames = [conf]
     live = Live()
@@ -824,7 +911,7 @@ def record_history(rnd: random.Random, tid: int, length: int, startups: bool = T
                 ev("drop")
                 change({"form": "none", "base": conf["base"], "given": []})
             elif x < 0.49:
-                b = BASE1 if conf["base"] == BASE0 else BASE0
+                b = bases[1] if conf["base"] == bases[0] else bases[0]
                 ev("setbase", s=b)
                 change({"form": conf["form"], "base": b, "given": conf["given"]})
             elif x < 0.56 and len(frames) > 1:
@@ -836,9 +923,12 @@ def record_history(rnd: random.Random, tid: int, length: int, startups: bool = T
                     ev("setbase", s=prev["base"])
                 ev("load", s=prev["form"], given=prev["given"])
                 conf = prev
-            elif x < 0.86:
+            elif x < 0.80:
                 k = rnd.choice([_new(f) for f in focus]) if rnd.random() < 0.7 else rnd.choice(ALL_ACCS)
                 ev("read", k=k, obs=read(k))
+            elif x < 0.86:
+                inc = rnd.random() < 0.6
+                ev("compdirs", inc=inc, obs=compdirs(inc))
             elif x < 0.93:
                 k = rnd.choice(["context_behavior", "tag_formatter"])
                 dom = ["django", "isolated"] if k == "context_behavior" else FORMATTERS
@@ -853,7 +943,7 @@ def record_history(rnd: random.Random, tid: int, length: int, startups: bool = T
                    autod=o["autod"], loaded=o["loaded"])
     finally:
         live.close()
-    return {"id": tid, "base": base0, "events": events}
+    return {"id": tid, "base": base0, "fs": FS, "apps": APPS, "events": events}
 
 
 def _record_item(item: Tuple[int, int, int]) -> Dict[str, Any]:
@@ -906,7 +996,7 @@ def validate_histories(chk: Check, n: int, length: int, salt: int = 0) -> None:
     nobs = 0
     for t in traces:
         chk.count(t["events"])
-        nobs += sum(1 for e in t["events"] if e["op"] in ("read", "regread", "startup"))
+        nobs += sum(1 for e in t["events"] if e["op"] in ("read", "regread", "compdirs", "startup"))
     chk.add("traces_validated_against_impl", len(traces))
     chk.add("trace_observations", nobs)
     chk.add("trace_states", r.distinct)
@@ -919,6 +1009,7 @@ def validate_histories(chk: Check, n: int, length: int, salt: int = 0) -> None:
 def core(chk: Check, tier: str) -> None:
     quick = tier == "quick"
     harness()
+    world()
     model_check_transitions(chk, list(GROUPS), rich=not quick, all_reads=not quick)
     model_check_startups(chk, STARTUP_GROUPS, rich=not quick)
     new_process_startups(chk, STARTUP_GROUPS, rich=not quick, every=23 if quick else 5)
@@ -964,6 +1055,7 @@ def selftest(tier: str) -> int:
     from django_components.app_settings import ComponentsSettings, ContextBehavior, InternalSettings, defaults
     IS = InternalSettings
     harness()
+    world()
 
     @contextmanager
     def patch(obj, name, new):
@@ -1207,6 +1299,7 @@ def replay(path: str) -> int:
     from . import boot
     boot.setup()
     harness()
+    world()
     d = json.load(open(path))
     case = d["case"]
     kind = case.get("kind")
@@ -1259,18 +1352,20 @@ def _rerecord(case: Dict[str, Any]) -> Dict[str, Any]:
                 e["obs"] = read(e["k"])
             elif op == "regread":
                 e["obs"] = regread(e["k"], e["v"], e["w"])
+            elif op == "compdirs":
+                e["obs"] = compdirs(e["inc"])
             elif op == "startup":
                 o = startup([e["n"]])
                 e.update(failed=o["failed"], dyn=o["dyn"], ml=o["ml"], stock=o["stock"],
                          cached=o["cached"][0][1] if o["cached"] else -1, fresh=o["fresh"], watch=o["watch"],
                          autod=o["autod"], loaded=o["loaded"])
-            if op not in ("read", "regread", "startup"):
+            if op not in ("read", "regread", "compdirs", "startup"):
                 conf = dict(conf, given=[{"k": a, "v": b} for a, b in sorted(given.items())])
                 live.push(conf)
             out.append(e)
     finally:
         live.close()
-    return {"id": 1, "base": case["base"], "events": out}
+    return {"id": 1, "base": case["base"], "fs": FS, "apps": APPS, "events": out}
 
 
 def _import_patched(path: str) -> None:
